@@ -140,16 +140,22 @@ func (m *meter) int64ObservableInstrument(id Instrument, callbacks []metric.Int6
 	}
 	return m.int64ObservableInsts.Lookup(key, func() (int64Observable, error) {
 		inst := newInt64Observable(m, id.Kind, id.Name, id.Description, id.Unit)
+		var errs error
 		for _, insert := range m.int64Resolver.inserters {
 			// Connect the measure functions for instruments in this pipeline with the
 			// callbacks for this pipeline.
 			in, err := insert.Instrument(id, insert.readerDefaultAggregation(id.Kind))
 			if err != nil {
-				return inst, err
+				// Same as for synchronous instruments (resolver.Aggregators):
+				// report the error but keep wiring what did resolve, for this
+				// reader and for the readers registered after it.
+				errs = errors.Join(errs, err)
 			}
 			// Drop aggregation
 			if len(in) == 0 {
-				inst.dropAggregation = true
+				if err == nil {
+					inst.dropAggregation = true
+				}
 				continue
 			}
 			inst.appendMeasures(in)
@@ -163,6 +169,9 @@ func (m *meter) int64ObservableInstrument(id Instrument, callbacks []metric.Int6
 				fn := cback
 				insert.addCallback(func(ctx context.Context) error { return fn(ctx, inst) })
 			}
+		}
+		if errs != nil {
+			return inst, errs
 		}
 		return inst, validateInstrumentName(id.Name)
 	})
@@ -322,16 +331,22 @@ func (m *meter) float64ObservableInstrument(
 	}
 	return m.float64ObservableInsts.Lookup(key, func() (float64Observable, error) {
 		inst := newFloat64Observable(m, id.Kind, id.Name, id.Description, id.Unit)
+		var errs error
 		for _, insert := range m.float64Resolver.inserters {
 			// Connect the measure functions for instruments in this pipeline with the
 			// callbacks for this pipeline.
 			in, err := insert.Instrument(id, insert.readerDefaultAggregation(id.Kind))
 			if err != nil {
-				return inst, err
+				// Same as for synchronous instruments (resolver.Aggregators):
+				// report the error but keep wiring what did resolve, for this
+				// reader and for the readers registered after it.
+				errs = errors.Join(errs, err)
 			}
 			// Drop aggregation
 			if len(in) == 0 {
-				inst.dropAggregation = true
+				if err == nil {
+					inst.dropAggregation = true
+				}
 				continue
 			}
 			inst.appendMeasures(in)
@@ -345,6 +360,9 @@ func (m *meter) float64ObservableInstrument(
 				fn := cback
 				insert.addCallback(func(ctx context.Context) error { return fn(ctx, inst) })
 			}
+		}
+		if errs != nil {
+			return inst, errs
 		}
 		return inst, validateInstrumentName(id.Name)
 	})
